@@ -90,7 +90,14 @@ fn eval(c: &Case, out: &mut Out) {
         Some(v) => {
             let mut spec = vec![];
             extend(&c.host, &c.start, &c.keys, c.inc, &mut spec);
-            if &spec != v {
+            // "exactly the maps ..., one map per combination": a multiset, the order of the
+            // returned vector is not part of the property
+            let canon = |l: &Vec<_>| {
+                let mut t: Vec<String> = l.iter().map(|m| tmap_s(m).to_string()).collect();
+                t.sort();
+                t
+            };
+            if canon(&spec) != canon(v) {
                 out.violation(
                     format!(
                         "bind_all returned {} but the extensions are {}",
